@@ -193,7 +193,12 @@ func parseArEntry(line []byte) (*ArEntry, error) {
 // like an `ar(1)` archive, and not some random file.
 func checkAr(reader io.ReaderAt) (int64, error) {
 	header := make([]byte, 8)
-	if _, err := reader.ReadAt(header, 0); err != nil {
+	// A ReaderAt may report io.EOF together with the last bytes of its
+	// input, so go by the count.
+	if n, err := reader.ReadAt(header, 0); n != len(header) {
+		if err == nil {
+			err = io.ErrUnexpectedEOF
+		}
 		return 0, err
 	}
 	if string(header) != "!<arch>\n" {
